@@ -53,7 +53,7 @@ def gen_request(rng, kind=None):
     ids = rnd_ids(rng)
     r = {"kind": kind, "ids": ids}
     if kind == "smb1_neg":
-        n = rng.randrange(1, 13)
+        n = rng.randrange(1, 13) if rng.random() < 0.93 else rng.choice([40, 64, 100, 150])       # long lists: requests beyond one MTU
         def unknown():
             k = rng.random()
             if k < 0.5:
@@ -64,13 +64,15 @@ def gen_request(rng, kind=None):
             return bytes(rng.choice(b"abcXYZ019 .") for _ in range(rng.randrange(20, 40))) + bytes(rng.randrange(0x80, 0x100) for _ in range(rng.randrange(1, 6)))
         dl = [rng.choice(SMB1_DIALECTS + [unknown(), unknown()]) for _ in range(n)]
         rng.shuffle(dl)
+        while len(dl) > 1 and sum(len(x) + 2 for x in dl) > 3300:        # frames are bounded by the 4096-byte capture buffer
+            dl.pop()
         r["dialects"] = dl
         h = smb1_header(0x72, flags=rng.choice([0x18, 0x08, 0x00, 0x10, 0x7F]), flags2=rng.getrandbits(16),
                         pid_high=ids["pid_high"], tid=ids["tid"], pid_low=ids["pid_low"], uid=ids["uid"], mid=ids["mid"])
         r["payload"] = nbss(h + smb1_negotiate_body(dl))
         r["cmd"] = 0x72
     elif kind == "smb1_sess":
-        blob = bytes(rng.getrandbits(8) for _ in range(rng.choice([1, 2, 16, 74, 255, 256, 512, rng.randrange(1, 513)])))
+        blob = bytes(rng.getrandbits(8) for _ in range(rng.choice([1, 2, 16, 74, 255, 256, 512, rng.randrange(1, 513), rng.randrange(1, 513), rng.randrange(513, 3500), rng.choice([1400, 1408, 1409, 1437, 1438, 1460, 1500, 2048, 3000])])))
         h = smb1_header(0x73, flags=rng.choice([0x18, 0x08, 0x00]), flags2=rng.getrandbits(16),
                         pid_high=ids["pid_high"], tid=ids["tid"], pid_low=ids["pid_low"], uid=ids["uid"], mid=ids["mid"])
         r["payload"] = nbss(h + smb1_session_setup_body(blob))
@@ -79,6 +81,9 @@ def gen_request(rng, kind=None):
         n = rng.randrange(1, 13)
         pool = SMB2_SUPPORTED + [0x0000, 0x0100, 0x0201, 0x0312, 0xFFFF, 0x0203]
         dl = rng.sample(pool, min(n, len(pool)))
+        if rng.random() < 0.07:
+            # hundreds of dialects (mostly unknown revisions): a request longer than one MTU
+            dl = [rng.choice([0x0000, 0x0100, 0x0201, 0x0312, 0xFFFF, 0x0203, rng.getrandbits(16) | 0x4000]) for _ in range(rng.choice([300, 698, 699, 700, 900]))]
         if not any(d in SMB2_SUPPORTED for d in dl):
             dl[rng.randrange(len(dl))] = rng.choice(SMB2_SUPPORTED)
         if rng.random() < 0.3:
@@ -90,7 +95,7 @@ def gen_request(rng, kind=None):
         r["payload"] = nbss(h + smb2_negotiate_body(dl, guid=bytes(rng.getrandbits(8) for _ in range(16))))
         r["cmd"] = 0
     else:
-        blob = bytes(rng.getrandbits(8) for _ in range(rng.choice([1, 2, 16, 74, 255, 256, 512, rng.randrange(1, 513)])))
+        blob = bytes(rng.getrandbits(8) for _ in range(rng.choice([1, 2, 16, 74, 255, 256, 512, rng.randrange(1, 513), rng.randrange(1, 513), rng.randrange(513, 3500), rng.choice([1400, 1408, 1409, 1437, 1438, 1460, 1500, 2048, 3000])])))
         h = smb2_header(1, flags=0, msgid=ids["msgid"], asyncid=ids["asyncid"], sessid=ids["sessid"])
         r["payload"] = nbss(h + smb2_session_setup_body(blob))
         r["cmd"] = 1
